@@ -85,7 +85,7 @@ theorem read_step_paced (cfg : Cfg) (tbl : List Nat) (hsorted : (cfg.queues.map 
           (Or.inr (by unfold gapElapsed; rw [d.carousel, hu.car]))
           (fun hmode => d.pub (hu.pub (by rw [← hm.cfg]; exact hmode)))
           (fun st hst => hstart st (by rw [← d.start]; exact hst))
-          (fun k g hg => by
+          (fun k _ g hg _ => by
             obtain ⟨g0, hg0, dg⟩ := hm.bwd k g hg
             rw [dg.faults]; exact hu.nofault k g0 hg0)
           q hq1 (by rw [hq2.1, hp1, d.prio]) 0 q.slots[0] (by simp [hlen])
